@@ -7,14 +7,16 @@ package main
 // Case families
 //   sweep (single-cause cells, seed independent, may be excused by findings/C05.json):
 //     every operator × the boundary grid in all singles and pairs (+ ratios, + floats adjacent to
-//     the grid for the comparisons), isqrt around perfect squares, expt with big bases.
+//     the grid for the comparisons), isqrt around perfect squares, expt with big bases;
+//     float-coupled cells for the comparisons: floats derived from integers (single, double, long)
+//     against rationals derived from the integer and from the float.
 //   composite (never excused; listed constructs are avoided instead):
 //     every n-ary operator × all triples over a small pool (seed independent),
 //     random integers up to 200 bits and ratios of them (seeded).
 //
 // Signature of a disagreement (fixed function, see c05Signature):
 //   op=<operator> in=<operand classes> [q=<qualifier>] out=<model result type> aspect=<aspect>
-//   operand classes: fix|big|rat|dbl|sgl; with sign (+,-,0) and in argument order for the
+//   operand classes: fix|big|rat|dbl|sgl|lng; with sign (+,-,0) and in argument order for the
 //   aspect wrong-value, otherwise the sorted set of kinds.
 //   qualifier: e<sign> = sign of the exponent (expt); d<sign> = sign of the divisor (floor,
 //   ceiling, truncate, round, mod, rem with two arguments); s<sign> = sign of the shift (ash).
@@ -38,8 +40,9 @@ func init() { props["C05"] = runC05 }
 
 type c05Operand struct {
 	rat  *big.Rat // exact value (also for floats)
-	kind string   // q | d | s
-	bits uint64   // for floats
+	kind string   // q | d | s | l (long-float: big.Float of precision prec)
+	bits uint64   // for single and double floats
+	prec uint     // for long-floats
 }
 
 func (o c05Operand) wire() string {
@@ -48,6 +51,9 @@ func (o c05Operand) wire() string {
 		return fmt.Sprintf("d:%x", o.bits)
 	case "s":
 		return fmt.Sprintf("s:%x", o.bits)
+	case "l":
+		// a long-float travels as its exact rational value (a dyadic rational) and its precision
+		return fmt.Sprintf("l:%d:%s", o.prec, o.rat.RatString())
 	}
 	if o.rat.IsInt() {
 		return "q:" + o.rat.Num().String()
@@ -72,6 +78,8 @@ func (o c05Operand) rep() string {
 		return "dbl"
 	case "s":
 		return "sgl"
+	case "l":
+		return "lng"
 	}
 	return c05Rep(o.rat)
 }
@@ -96,6 +104,8 @@ func (o c05Operand) object() slip.Object {
 		return slip.DoubleFloat(math.Float64frombits(o.bits))
 	case "s":
 		return slip.SingleFloat(math.Float32frombits(uint32(o.bits)))
+	case "l":
+		return (*slip.LongFloat)(new(big.Float).SetPrec(o.prec).SetRat(o.rat))
 	}
 	if o.rat.IsInt() {
 		if o.rat.Num().IsInt64() {
@@ -130,6 +140,100 @@ func c05Double(f float64) c05Operand {
 
 func c05Single(f float32) c05Operand {
 	return c05Operand{rat: new(big.Rat).SetFloat64(float64(f)), kind: "s", bits: uint64(math.Float32bits(f))}
+}
+
+// c05Long is the long-float of the given precision nearest to n.
+func c05Long(n *big.Int, prec uint) c05Operand {
+	r, _ := new(big.Float).SetPrec(prec).SetInt(n).Rat(nil)
+	return c05Operand{rat: r, kind: "l", prec: prec}
+}
+
+// c05FloatsNear returns the floats derived from the integer n: the single, double and long floats
+// nearest to n and, for single and double, their two neighbours (infinities are left out).
+func c05FloatsNear(n *big.Int) []c05Operand {
+	var out []c05Operand
+	bf := new(big.Float).SetPrec(uint(n.BitLen() + 64)).SetInt(n)
+	if f64, _ := bf.Float64(); !math.IsInf(f64, 0) {
+		for _, x := range []float64{f64, math.Nextafter(f64, math.Inf(1)), math.Nextafter(f64, math.Inf(-1))} {
+			if !math.IsInf(x, 0) {
+				out = append(out, c05Double(x))
+			}
+		}
+	}
+	if f32, _ := bf.Float32(); !math.IsInf(float64(f32), 0) {
+		for _, x := range []float32{f32, math.Nextafter32(f32, float32(math.Inf(1))), math.Nextafter32(f32, float32(math.Inf(-1)))} {
+			if !math.IsInf(float64(x), 0) {
+				out = append(out, c05Single(x))
+			}
+		}
+	}
+	// long-floats: one that rounds n (unless n is short) and one that holds it exactly
+	out = append(out, c05Long(n, 40), c05Long(n, 64), c05Long(n, uint(n.BitLen()+8)))
+	return out
+}
+
+// c05RationalsNear returns the rationals derived from the integer n and the float f that was
+// derived from it: n and its neighbours, the exact value of f, its integer neighbours, and ratios
+// a third and a tiny bit (2^-90) away from it.
+func c05RationalsNear(n *big.Int, f c05Operand) []c05Operand {
+	seen := map[string]bool{}
+	var out []c05Operand
+	add := func(r *big.Rat) {
+		if k := r.RatString(); !seen[k] {
+			seen[k] = true
+			out = append(out, c05Operand{rat: r, kind: "q"})
+		}
+	}
+	one := big.NewRat(1, 1)
+	nr := new(big.Rat).SetInt(n)
+	add(nr)
+	add(new(big.Rat).Add(nr, one))
+	add(new(big.Rat).Sub(nr, one))
+	e := f.rat
+	add(new(big.Rat).Set(e))
+	if e.IsInt() {
+		add(new(big.Rat).Add(e, one))
+		add(new(big.Rat).Sub(e, one))
+	}
+	third := big.NewRat(1, 3)
+	tiny := new(big.Rat).SetFrac(big.NewInt(1), new(big.Int).Lsh(big.NewInt(1), 90))
+	add(new(big.Rat).Add(e, third))
+	add(new(big.Rat).Sub(e, third))
+	add(new(big.Rat).Add(e, tiny))
+	add(new(big.Rat).Sub(e, tiny))
+	return out
+}
+
+// c05FloatAnchors are the integers from which the float-coupled sweep derives its floats: the
+// boundary grid plus integers around the precision limits of the float formats (2^24, 2^53, 2^64)
+// that are NOT exactly representable, and a few ordinary ones; each with both signs.
+func c05FloatAnchors() []*big.Int {
+	var out []*big.Int
+	seen := map[string]bool{}
+	add := func(n *big.Int) {
+		for _, v := range []*big.Int{n, new(big.Int).Neg(n)} {
+			if !seen[v.String()] {
+				seen[v.String()] = true
+				out = append(out, v)
+			}
+		}
+	}
+	for _, g := range c05Grid() {
+		add(g.rat.Num())
+	}
+	p := func(e uint, d int64) *big.Int {
+		return new(big.Int).Add(new(big.Int).Lsh(big.NewInt(1), e), big.NewInt(d))
+	}
+	for _, e := range []uint{24, 25, 31, 40, 53, 54, 62, 63, 64, 65, 100, 127} {
+		for _, d := range []int64{-1, 1, 2, 3} {
+			add(p(e, d))
+		}
+	}
+	for _, s := range []string{"7", "1000", "16777215", "123456789", "3221225473", "9007199254740993", "1000000000000000001",
+		"10000000000000000001", "1000000000000000000000000000001", "340282366920938463463374607431768211455"} {
+		add(c05Int(s).rat.Num())
+	}
+	return out
 }
 
 // the boundary grid of the property's quantifier
@@ -221,6 +325,8 @@ func (cs c05Case) lisp() string {
 			parts = append(parts, fmt.Sprintf("#d<%x>", a.bits))
 		case "s":
 			parts = append(parts, fmt.Sprintf("#s<%x>", a.bits))
+		case "l":
+			parts = append(parts, fmt.Sprintf("#l<%d:%s>", a.prec, a.rat.RatString()))
 		default:
 			parts = append(parts, a.rat.RatString())
 		}
@@ -534,6 +640,15 @@ func c05ParseRequest(req string) (c05Case, bool) {
 			var bits uint64
 			_, _ = fmt.Sscanf(v, "%x", &bits)
 			cs.args = append(cs.args, c05Single(math.Float32frombits(uint32(bits))))
+		case "l":
+			ps, rs, _ := strings.Cut(v, ":")
+			var prec uint
+			_, _ = fmt.Sscanf(ps, "%d", &prec)
+			r, ok := new(big.Rat).SetString(rs)
+			if !ok || prec == 0 {
+				return cs, false
+			}
+			cs.args = append(cs.args, c05Operand{rat: r, kind: "l", prec: prec})
 		default:
 			return cs, false
 		}
@@ -631,14 +746,22 @@ func runC05(c *lib.Ctx) {
 		}
 	}
 	floats = append(floats, c05Double(0.5), c05Double(-0.5), c05Double(1.5), c05Double(0.1), c05Single(0.1))
-	gridRatios := append(append([]c05Operand{}, grid...), ratios...)
+	// integers off the grid where a product, a doubled remainder or a square crosses 2^63, and
+	// neighbours of grid points that no float format holds exactly
+	extra := []c05Operand{}
+	for _, v := range []string{"3037000499", "3037000500", "4294967295", "4294967297", "2147483649", "16777217",
+		"6074000999", "4611686018427387905", "6917529027641081856", "9223372036854775806", "9007199254740993"} {
+		extra = append(extra, c05Int(v), c05Int("-"+v))
+	}
+	intPool := append(append([]c05Operand{}, grid...), extra...)
+	gridRatios := append(append([]c05Operand{}, intPool...), ratios...)
 
 	// --- single-cause sweep: the grid exhaustively in all pairs (and singles) per operator
 	for _, op := range c05Ops {
 		unaryPool := gridRatios
 		switch op.domain {
 		case "int", "nat", "ash":
-			unaryPool = grid
+			unaryPool = intPool
 		}
 		if op.minArg <= 1 && (op.maxArg == -1 || op.maxArg >= 1) {
 			for _, a := range unaryPool {
@@ -659,9 +782,9 @@ func runC05(c *lib.Ctx) {
 			case "rat", "place", "go":
 				left, right = gridRatios, gridRatios
 			case "int":
-				left, right = grid, grid
+				left, right = intPool, intPool
 			case "ash":
-				left, right = grid, small
+				left, right = intPool, small
 			case "expt":
 				// bases: 0, ±1, ±2, ±3, ±2^31, two bignums, the first nine ratios
 				left = append(append(append([]c05Operand{}, grid[:9]...), c05Int("18446744073709551616"), c05Int("-18446744073709551617")), ratios[:9]...)
@@ -687,6 +810,24 @@ func runC05(c *lib.Ctx) {
 				sq := new(big.Int).Mul(kk, kk)
 				for _, d := range []int64{-1, 0, 1} {
 					cases = append(cases, c05Case{op, []c05Operand{c05Big(new(big.Int).Add(sq, big.NewInt(d)))}, true})
+				}
+			}
+		}
+	}
+	// --- single-cause sweep, float-coupled cells: for comparisons, min and max a float derived
+	// FROM an integer (nearest single/double/long float and neighbours) against rationals derived
+	// from that integer and from the float (n, n±1, the float's exact value, its integer
+	// neighbours, ratios a third and 2^-90 away), in both argument orders
+	nCoupled := 0
+	for _, op := range c05Ops {
+		if !op.isCmp() || op.maxArg != -1 {
+			continue
+		}
+		for _, n := range c05FloatAnchors() {
+			for _, f := range c05FloatsNear(n) {
+				for _, r := range c05RationalsNear(n, f) {
+					cases = append(cases, c05Case{op, []c05Operand{r, f}, true}, c05Case{op, []c05Operand{f, r}, true})
+					nCoupled += 2
 				}
 			}
 		}
@@ -772,6 +913,21 @@ func runC05(c *lib.Ctx) {
 			n += c.Rng.Intn(op.maxArg - op.minArg + 1)
 		}
 		var args []c05Operand
+		if op.isCmp() && op.maxArg == -1 && c.Rng.Chance(35) {
+			// float-coupled: a float derived from a random integer against rationals derived from
+			// that integer and from the float, anywhere in a chain of two or three arguments
+			m := c.Rng.BigBits([]int{12, 23, 24, 25, 26, 31, 33, 52, 53, 54, 55, 62, 63, 64, 65, 100, 128, 200}[c.Rng.Intn(18)])
+			fs := c05FloatsNear(m)
+			f := fs[c.Rng.Intn(len(fs))]
+			rs := c05RationalsNear(m, f)
+			args = append(args, rs[c.Rng.Intn(len(rs))])
+			if c.Rng.Chance(40) {
+				args = append(args, rs[c.Rng.Intn(len(rs))])
+			}
+			at := c.Rng.Intn(len(args) + 1)
+			args = append(args[:at], append([]c05Operand{f}, args[at:]...)...)
+			return c05Case{op, args, false}
+		}
 		for j := 0; j < n; j++ {
 			switch {
 			case op.domain == "ash" && j == 1:
@@ -886,6 +1042,7 @@ func runC05(c *lib.Ctx) {
 	c.Ev.Coverage["traces_validated_against_impl"] = total
 	c.Ev.Coverage["agreements"] = agree
 	c.Ev.Coverage["sweep_cases"] = nSweep
+	c.Ev.Coverage["sweep_float_coupled_cases"] = nCoupled
 	c.Ev.Coverage["triple_cases"] = nTriples
 	c.Ev.Coverage["random_cases"] = nRandom
 	c.Ev.Coverage["composite_cases_avoided_listed_construct"] = avoided
